@@ -482,6 +482,94 @@ fn run_limit_session(seq_outcomes: &[Outcome], limit: Option<usize>, framing: Fr
     }
 }
 
+/// "No timeout": per-request timeouts far beyond any clock (up to Duration::MAX). The deadline is
+/// never reached, so a reply that arrives at all arrives strictly before it: the request succeeds
+/// with its data, and the channel keeps working for the next request.
+fn run_huge_timeout(seed: u64, n: u64, ev: &mut Evidence) {
+    let mut rng = Rng::sub(seed, 1120, n);
+    let framing = if n % 2 == 0 { Framing::Mbap } else { Framing::Rtu };
+    let style = ALL_STYLES_API[(n / 2) as usize % 3];
+    let (tname, timeout) = *rng.pick(&[
+        ("duration_max", Duration::MAX),
+        ("u64_max_seconds", Duration::from_secs(u64::MAX)),
+        ("2^40_seconds", Duration::from_secs(1 << 40)),
+        ("100_years", Duration::from_secs(100 * 365 * 86400)),
+    ]);
+    let reply_after = *rng.pick(&[Duration::ZERO, Duration::from_millis(5), Duration::from_secs(3600)]);
+    let result = run_paused(|| async move {
+        let seq = Seq::default();
+        let (io, handle) = sim_io(vec![], seq.clone());
+        let mut asm = RequestAssembler::new(framing);
+        handle.set_responder(Box::new(move |bytes, _| {
+            let mut items = vec![];
+            for f in asm.feed(bytes) {
+                let pdu = [3u8, 2, 0x12, 0x34];
+                if !reply_after.is_zero() {
+                    items.push(In::Delay(reply_after));
+                }
+                items.push(In::Chunk(match framing {
+                    Framing::Mbap => mbap_frame(((f[0] as u16) << 8) | f[1] as u16, f[6], &pdu),
+                    Framing::Rtu => rtu_frame(f[0], &pdu),
+                }));
+            }
+            items
+        }));
+        let rf = match framing {
+            Framing::Mbap => rodbus::verif::Framing::Mbap,
+            Framing::Rtu => rodbus::verif::Framing::Rtu,
+        };
+        let (channel, mut sim) = rodbus::verif::client(rf, 4, decode_level((0, 0, 0)), NonZeroUsize::new(2));
+        let task = tokio::spawn(async move { sim.run_session(Box::new(io)).await });
+        channel.enable().await.unwrap();
+        let start = tokio::time::Instant::now();
+        let req = ClientReq::Read { kind: Kind::ReadHolding, start: 7, count: 1 };
+        let first = Slot::new(start, seq.clone());
+        let _ = submit(&channel, style, 1, timeout, &req, first.clone()).await;
+        let _ = tokio::time::timeout(Duration::from_secs(3 * 3600), first.wait()).await;
+        settle().await;
+        // and an ordinary request afterwards
+        let second = Slot::new(start, seq.clone());
+        let _ = submit(&channel, Style::Future, 1, Duration::from_secs(7200), &req, second.clone()).await;
+        let _ = tokio::time::timeout(Duration::from_secs(3 * 3600), second.wait()).await;
+        settle().await;
+        drop(channel);
+        let _ = tokio::time::timeout(Duration::from_secs(3600), task).await;
+        let a = first.completions.lock().unwrap().clone();
+        let b = second.completions.lock().unwrap().clone();
+        (a, b)
+    });
+    ev.eval();
+    ev.count("huge_timeout_sessions", 1);
+    let rep = json!({"huge_timeout": tname, "framing": framing.name(), "api": style.name(), "reply_after_ms": reply_after.as_millis() as u64, "n": n});
+    match result {
+        Err(p) => ev.violation(
+            format!("huge_timeout:{tname}:panic:{}", crate::util::panic_site(&p)),
+            format!("a request with response timeout {tname} ({}, {}) made the client task panic: {p}", framing.name(), style.name()),
+            rep,
+        ),
+        Ok((a, b)) => {
+            let want = Res::Regs(vec![(7, 0x1234)]);
+            let got_a = a.first().map(|c| c.res.clone());
+            let got_b = b.first().map(|c| c.res.clone());
+            ev.class(format!("huge_timeout|{tname}|{}|{}|{}", framing.name(), style.name(), got_a.as_ref().map(|r| r.class()).unwrap_or("pending".into())));
+            if a.len() != 1 || got_a.as_ref() != Some(&want) {
+                ev.violation(
+                    format!("huge_timeout:{tname}:{}", got_a.as_ref().map(|r| r.class()).unwrap_or("pending".into())),
+                    format!("a request with response timeout {tname} answered genuinely after {reply_after:?} completed {} time(s) with {got_a:?}", a.len()),
+                    rep.clone(),
+                );
+            }
+            if b.len() != 1 || got_b.as_ref() != Some(&want) {
+                ev.violation(
+                    format!("huge_timeout:{tname}:next_request:{}", got_b.as_ref().map(|r| r.class()).unwrap_or("pending".into())),
+                    format!("the request after one with response timeout {tname} completed {} time(s) with {got_b:?}", b.len()),
+                    rep,
+                );
+            }
+        }
+    }
+}
+
 pub fn run(args: &Args) -> i32 {
     let started = Instant::now();
     let seed = args.seed;
@@ -510,6 +598,9 @@ pub fn run(args: &Args) -> i32 {
     }
     let mut ev = Evidence::new();
     let sessions = args.tier.pick(200_000u64, 6_000_000);
+    for p in parallel(args.jobs, args.tier.pick(240, 2400), Evidence::new, |n, ev| run_huge_timeout(seed, n, ev)) {
+        ev.merge(p);
+    }
     for p in parallel(args.jobs, sessions, Evidence::new, |n, ev| run_timing_session(seed, n, ev)) {
         ev.merge(p);
     }
